@@ -194,6 +194,46 @@ theorem inv_reload_onfly_detached (L : Laws e fold) {D : List Nat} {s : St Id} (
       exact this
     · exact hcov' k id hid hne hkD
 
+/-! ## the production writer: ptt.SetupNewUser -/
+
+/-- A registration through ptt.SetupNewUser — accepted, refused because the id exists, refused because no slot is free,
+or failing at the write of the .PASSWDS record AFTER the slot was assigned — never faults and keeps the invariant;
+the index changes only by one SetUserID of the free slot that DoSearchUserRaw("") handed out. -/
+theorem inv_setupNewUser (L : Laws e fold) {s : St Id} (hinv : Inv e s) (id : Id) (canWrite : Bool) :
+    ∃ s' r uid, setupNewUser e s id canWrite = .ok (s', r, uid) ∧ Inv e s' ∧
+      ((r = .errExists ∨ r = .errInvalidUID) → s' = s ∧ uid = 0) ∧
+      ((r = .ok ∨ r = .errWrite) → ∃ k : Nat, k < e.MAX ∧ uid = (k : Int) + 1 ∧ s'.userid = s.userid.set k id) ∧
+      (r = .ok ↔ (canWrite = true ∧ r ≠ .errExists ∧ r ≠ .errInvalidUID)) := by
+  obtain ⟨ch, hwf, hfree, hcov⟩ := hinv
+  have hinv : Inv e s := ⟨ch, hwf, hfree, hcov⟩
+  unfold setupNewUser
+  simp only [doSearch_spec L.hash_lt hwf, bind_ok]
+  split
+  · refine ⟨s, .errExists, 0, rfl, hinv, fun _ => ⟨rfl, rfl⟩, ?_, ?_⟩
+    · intro h; rcases h with h | h <;> cases h
+    · simp
+  · -- the free slot
+    cases hfo : findOn e s e.zero (ch (e.hash e.zero)) with
+    | none =>
+      simp only [searchResult, set_out_of_range s 0 id (Or.inl (Int.le_refl 0)), bind_ok, pure_ok]
+      refine ⟨s, .errInvalidUID, 0, (by simp), hinv, fun _ => ⟨rfl, rfl⟩, ?_, ?_⟩
+      · intro h; rcases h with h | h <;> cases h
+      · simp
+    | some p =>
+      obtain ⟨k, idk⟩ := p
+      obtain ⟨hk1, _, _⟩ := findOn_some hfo
+      have hk : k < e.MAX := wf_lt hwf (L.hash_lt e.zero) hk1
+      obtain ⟨s', hrun, hinv', hu, _⟩ := inv_setUserID L hinv hk id
+      simp only [searchResult, hrun, bind_ok, pure_ok, ne_eq, not_true_eq_false, if_false]
+      have hinv'' : Inv e s' := by simpa [Inv] using hinv'
+      cases canWrite
+      · refine ⟨s', .errWrite, (k : Int) + 1, (by simp), hinv'', ?_, fun _ => ⟨k, hk, rfl, hu⟩, ?_⟩
+        · intro h; rcases h with h | h <;> cases h
+        · simp
+      · refine ⟨s', .ok, (k : Int) + 1, (by simp), hinv'', ?_, fun _ => ⟨k, hk, rfl, hu⟩, ?_⟩
+        · intro h; rcases h with h | h <;> cases h
+        · simp
+
 /-! ## a second process attaching to the live segment -/
 
 /-- NewSHM on an existing segment — as opener or AS CREATOR (what main_init does with IS_NEW_SHM on a restart or a
@@ -838,6 +878,53 @@ theorem onfly_disagreeing_file_loses_slot :
   cases this
 
 end disagree
+
+/-! ### witness for a broken rule: rolling a failed registration back with AddToUHash(slot, "") (no removal first) -/
+
+section rollback
+/-- four slots, two buckets (parity), ids are numbers, 0 is the empty id -/
+def toy4 : Env Nat where
+  MAX := 4
+  B := 2
+  PRE := 4
+  hash a := a % 2
+  ceq a b := a == b
+  seq a b := a == b
+  isEmpty a := a == 0
+  valid a := a != 0
+  zero := 0
+
+/-- SetupNewUser with the rollback of seeded change C04-r5-2: when the .PASSWDS write fails, the slot is "put back on
+the free chain" by AddToUHash(slot, "") — while it is still linked on the chain of the id that failed -/
+def setupNewUserSeed (s : St Nat) (id : Nat) (canWrite : Bool) : M (St Nat × Ret × Int) := do
+  let (s', r, uid) ← setupNewUser toy4 s id canWrite
+  if r = .errWrite then do
+    let (s'', _) ← addToUHash toy4 s' (uid - 1) toy4.zero
+    pure (s'', r, uid)
+  else pure (s', r, uid)
+
+def regHistory (reg : St Nat → Nat → Bool → M (St Nat × Ret × Int)) : M (St Nat × List (Ret × Int)) := do
+  let (s0, _) ← coldLoad toy4 (some ([0, 0, 0, 0], false))
+  let (s1, r1, u1) ← reg s0 13 false     -- the write of this registration fails
+  let (s2, r2, u2) ← reg s1 15 true      -- collides with 13
+  let (s3, r3, u3) ← reg s2 22 true
+  let (s4, r4, u4) ← reg s3 24 true
+  let (s5, r5, u5) ← reg s4 26 true      -- with the rollback: slot 0 is free again and handed out here
+  pure (s5, [(r1, u1), (r2, u2), (r3, u3), (r4, u4), (r5, u5)])
+
+/-- With the rollback every later registration reports success, the table ends as [26, 15, 22, 24] — and the lookup of 15,
+which slot 1 holds, answers none: re-assigning the doubly linked slot 0 cut the odd chain in front of slot 1.
+The unchanged code keeps slot 0 assigned to 13, refuses the fifth registration, and finds 15. -/
+theorem rollback_by_add_loses_registered_id :
+    (∃ s, regHistory setupNewUserSeed =
+        .ok (s, [(.errWrite, 1), (.ok, 2), (.ok, 3), (.ok, 4), (.ok, 1)]) ∧
+      s.userid = [26, 15, 22, 24] ∧ searchUserRaw toy4 s 15 = .ok (0, none)) ∧
+    (∃ s, regHistory (setupNewUser toy4) =
+        .ok (s, [(.errWrite, 1), (.ok, 2), (.ok, 3), (.ok, 4), (.errInvalidUID, 0)]) ∧
+      s.userid = [13, 15, 22, 24] ∧ searchUserRaw toy4 s 15 = .ok (2, some 15)) :=
+  ⟨⟨_, by rfl, rfl, by rfl⟩, ⟨_, by rfl, rfl, by rfl⟩⟩
+
+end rollback
 
 /-- the real hash: "SYSOP" and "sysop" share a bucket; two different ids need not -/
 example : stringHashWithHashBits [83, 89, 83, 79, 80, 0] = stringHashWithHashBits [115, 121, 115, 111, 112, 0, 7, 7] := by
